@@ -3,7 +3,7 @@ from .. import build, framework as fw, markers, trees
 from ..sexp import S, dump, pretty
 
 
-def build_history(ctx, sess, n_parse, n_ops, kinds=('and', 'or', 'not')):
+def build_history(ctx, sess, n_parse, n_ops, kinds=('and', 'or', 'not'), battery=False):
     regs = []
     for _ in range(n_parse):
         t = markers.gen_marker(ctx.rng, ctx.rng.choice([0, 1, 1, 2, 2, 3]))
@@ -12,6 +12,32 @@ def build_history(ctx, sess, n_parse, n_ops, kinds=('and', 'or', 'not')):
             regs.append(reg)
         ctx.count('parse:' + r[0])
     steps = []
+    # boundary battery: all ordered pairs of the six comparisons of one key against ONE value, and neighbouring
+    # values, under and / or: ranges that touch at a bound with every combination of inclusive / exclusive ends
+    if battery and ('and' in kinds or 'or' in kinds):
+        battery = []
+        for key, vals in ((ctx.rng.choice(markers.VERSION_KEYS[1:2] + ['python_full_version']), ctx.rng.sample(markers.VERSIONS, 2)),
+                          (ctx.rng.choice(markers.STRING_KEYS), ctx.rng.sample([v for v in markers.STRVALS if v and "\x00" not in v], 2))):
+            atoms = []
+            for v in vals:
+                for op in ('<', '<=', '>', '>=', '==', '!='):
+                    reg, r = sess.parse("%s %s '%s'" % (key, op, v))
+                    if reg is not None:
+                        atoms.append(reg)
+                        regs.append(reg)
+            battery += [(a, b) for a in atoms for b in atoms if a != b]
+        for a, b in battery:
+            for k in ('and', 'or'):
+                if k not in kinds:
+                    continue
+                reg, r = sess.op(k, a, b)
+                ctx.count('op:battery-' + k)
+                if reg is None:
+                    ctx.failure('%s on registers panicked or failed: %s' % (k, dump(r)),
+                                {'op': k, 'operands': [markers.describe(sess, x) for x in (a, b)], 'result': dump(r)})
+                    continue
+                regs.append(reg)
+                steps.append((k, (a, b), reg))
     for _ in range(n_ops):
         k = ctx.rng.choice(kinds)
         pick = lambda: ctx.rng.choice(regs[-40:] if ctx.rng.random() < .5 else regs)
@@ -87,14 +113,14 @@ def run(ctx):
     quick = ctx.tier == 'quick'
     rounds = 2 if quick else 12
     ctx.extra['rule'] = ('histories in one long-lived process: parse random markers (depth 0-3 over all key kinds, operators, '
-                         'both operand orders, lists, wildcards, pre/post/dev literals), then random and/or/negate over earlier '
+                         'both operand orders, lists, wildcards, pre/post/dev literals), a boundary battery (all ordered pairs of the six comparisons of a version key and of a string key against the same and a neighbouring value, under and / or), then random and/or/negate over earlier '
                          'results; each step: extracted model op on the operands the crate produced vs the crate result; '
                          'oracle: evaluate() of result vs operands on environments at/next to every cut value; '
                          'non-trivial = distinct (op, operands) whose operands and result are not constants')
     for rd in range(rounds):
         sess = markers.Session(h)
         keys = markers.Keys(sess.p)
-        regs, steps = build_history(ctx, sess, 120 if quick else 300, 400 if quick else 1500)
+        regs, steps = build_history(ctx, sess, 120 if quick else 300, 400 if quick else 1500, battery=True)
         bad = monitor(ctx, sess, regs)
         ctx.extra['monitor_wfb_false'] = ctx.extra.get('monitor_wfb_false', 0) + len(bad)
         meta = correspond(ctx, sess, steps)
